@@ -6,11 +6,12 @@ import (
 
 // EngineOpts tunes the generic replay of an Engine.tla behaviour.
 type EngineOpts struct {
-	Bag     bool     // the property fixes the result only as a multiset
-	Repeats int      // run the case this many times in fresh queries (order stability)
-	Options []string // genql options (wrapped, pg, arr)
-	Style   Style
-	Extra   []string // extra signature tags
+	Bag      bool     // the property fixes the result only as a multiset
+	Repeats  int      // run the case this many times in fresh queries (order stability)
+	Options  []string // genql options (wrapped, pg, arr)
+	Style    Style
+	Extra    []string // extra signature tags
+	NoReExec bool     // the queries of this family have side effects (variables, harness-owned functions): one Exec only
 }
 
 // ExpectedRows decodes the `res` of an exported case: rows, or wantErr.
@@ -29,9 +30,6 @@ func ExpectedRows(c Node) (rows []any, wantErr bool) {
 // OrderKeys returns the ORDER BY key paths of a select query.
 func OrderKeys(q Node) [][]string {
 	out := [][]string{}
-	if q["k"] != "select" {
-		return out
-	}
 	for _, o := range seq(q["order"]) {
 		out = append(out, strs(o.(Node)["key"]))
 	}
@@ -108,12 +106,37 @@ func CheckEngine(c Node, o EngineOpts) Verdict {
 		reps = 1
 	}
 	v := Verdict{OK: true, SQL: sql, Sig: sig}
-	for rep := 0; rep < reps; rep++ {
+	// one more pass with the caller's tables as typed Go slices ([]map[string]any instead of []any): the same document
+	// to every reader of the statement, another Go type to the engine (which converts such tables when it builds the query)
+	typedPass := reps
+	for rep := 0; rep <= typedPass; rep++ {
 		doc := FromTagged(c["doc"]).(map[string]any)
+		if rep == typedPass {
+			if wantErr || !TypedTables(doc) {
+				break
+			}
+			sig = append(append([]string{}, sig...), "typed-tables")
+		}
+		ReExec = !o.NoReExec
 		out := Run(doc, sql, rep == 0, Opts(o.Options, nil, nil)...)
+		ReExec = false
 		v.Execs++
 		if out.Panic != nil {
 			return fail("panic", sql, sig, "panic escaped the API: %v", out.Panic)
+		}
+		if out.Again {
+			// the same Query object executed once more: the same answer (as a multiset where the order is open)
+			v.Execs++
+			same := out.Panic2 == nil && out.Err2 == nil && (Canon(any(out.Rows2)) == Canon(any(out.Rows)) || ((o.Bag || ties || groupingOrJoin(q)) && canonBag(out.Rows2) == canonBag(out.Rows)))
+			if !same {
+				second := Canon(any(out.Rows2))
+				if out.Panic2 != nil {
+					second = fmt.Sprintf("PANIC %v", out.Panic2)
+				} else if out.Err2 != nil {
+					second = fmt.Sprintf("ERROR %v", out.Err2)
+				}
+				return fail("reexec", sql, append(sig, "reexec"), "the same Query executed twice: first %s, then %s", Canon(any(out.Rows)), second)
+			}
 		}
 		if wantErr {
 			if out.Err == nil {
@@ -191,4 +214,30 @@ func stageDrift(c Node, out Outcome, unordered bool) string {
 		}
 	}
 	return ""
+}
+
+// TypedTables turns every top-level table of the document that consists of objects only into a []map[string]any
+// (in place); false if there was none.
+func TypedTables(doc map[string]any) bool {
+	any_ := false
+	for k, v := range doc {
+		rows, ok := v.([]any)
+		if !ok || len(rows) == 0 {
+			continue
+		}
+		typed := make([]map[string]any, 0, len(rows))
+		for _, r := range rows {
+			m, ok := r.(map[string]any)
+			if !ok {
+				typed = nil
+				break
+			}
+			typed = append(typed, m)
+		}
+		if typed != nil {
+			doc[k] = typed
+			any_ = true
+		}
+	}
+	return any_
 }
